@@ -21,7 +21,7 @@ TRUSTED_BASE = [
     "axioms: none declared; Print Assumptions output per theorem recorded in this file",
     "hand-written Gallina model (coq/*Impl.v) tied to /repo by this run's differential correspondence on the listed cases",
     "gen/src_constants.py copies literal tables/constants from /repo into coq/SrcConstants.v on every run",
-    "gen/ast_translate.py and gen/ast_translate64.py (clang JSON AST -> Gallina: Translated.v unbounded, Source64.v checked 64/32-bit) for the civil_time_detail.h kernels, re-run on every check",
+    "gen/ast_translate.py, gen/ast_translate64.py, gen/ast_translate_ptr.py (clang JSON AST -> Gallina: Translated.v unbounded; Source64.v checked 64/32-bit reading of the civil_time_detail.h and time_zone_info.cc kernels; SourcePosix.v checked reading of the pointer-walking footer parser), re-run on every check",
     "extraction: ExtrOcamlBasic only (bool, option, unit, list, prod, sumbool, sumor; andb/orb inlined); Z/positive/nat stay inductive",
     "ocaml/driver.ml (case parsing, printing), harness/*.cc, g++ 12.2 with ASan+UBSan, OCaml 4.13.1",
 ]
@@ -49,6 +49,7 @@ def regen_constants():
         r = sh([sys.executable, os.path.join(VERIF, "gen", "src_constants.py")])
         r2 = sh([sys.executable, os.path.join(VERIF, "gen", "ast_translate.py")])
         r3 = sh([sys.executable, os.path.join(VERIF, "gen", "ast_translate64.py")])
+        r4 = sh([sys.executable, os.path.join(VERIF, "gen", "ast_translate_ptr.py")])
     try:
         st = json.loads(r.stdout.strip().splitlines()[-1])
     except Exception:
@@ -61,6 +62,10 @@ def regen_constants():
         st["ast_translation_checked64"] = json.loads(r3.stdout.strip().splitlines()[-1])
     except Exception:
         st["ast_translation_checked64"] = {"error": r3.stdout[-300:]}
+    try:
+        st["ast_translation_posix_parser"] = json.loads(r4.stdout.strip().splitlines()[-1])
+    except Exception:
+        st["ast_translation_posix_parser"] = {"error": r4.stdout[-300:]}
     return st
 
 
